@@ -61,7 +61,7 @@ CLAIMED = {
    note='kvfile (last write wins, key order) is a parameter; avg/median quotients are compared as Python computes them from the same integers; numeric aggregates are generated over integers; unmatched / deduplicated rows are compared as multisets (their order is the key order of the key/value file); tie theorems hold for integer / text columns (sum, avg, median over integers); PyLite translator + evaluator are trusted and validated by the pyeval correspondence',
    ref='6/C11'),
  'C12': dict(
-   technique='Lean 4 proof (string order is a strict total order; fixed-width hex is an order embedding; flipped IEEE bit pattern orders like the value; key+separator+row-number compares as (key, row number); output is a sorted, stable permutation; reverse = exact reverse) + sortkey/sort correspondence + stable-sort oracle + translator tie (Tie_sort_key: the key function of KeyCalc, re-translated from the working tree on every run, renders integer cells as the flipped bit pattern encNum and text as itself, in key order; bit array as an external object) + pyeval correspondence with the real BitArray operations + the table as a selected resource among others',
+   technique='Lean 4 proof (string order is a strict total order; fixed-width hex is an order embedding; flipped IEEE bit pattern orders like the value; key+separator+row-number compares as (key, row number); output is a sorted, stable permutation; reverse = exact reverse) + sortkey/sort correspondence + stable-sort oracle + translator tie (Tie_sort_key: the key function of KeyCalc, re-translated from the working tree on every run, renders integer cells as the flipped bit pattern encNum and text as itself, in key order; bit array as an external object) + pyeval correspondence with the real BitArray operations + the table as a selected resource among others + Tie_sort_process: the keying generator of _sorter yields every row once, in order, under key_calc(row) + rendered position',
    text='C12_suffix_lex, C12_flip_monotone, C12_num_key_order, C12_sorted_stable, C12_perm, C12_reverse_exact hold for all keys over code points above the separator, all finite doubles and all tables below 16^8 rows. The real rendered keys and the real output order are compared with the model (mergeSort of the real keys), the numeric rendering with renderNum on the bit pattern, and the real output with an independent stable sort by the specification order, incl. tables above the 10240-entry cache.',
    note='bitstring packing = IEEE-754; kvfile ordered by key bytes; int/Decimal -> double conversion is monotone but not injective above 2^53 (listed finding); the empty string is null for Table Schema and not a key',
    ref='6/C12'),
